@@ -87,43 +87,57 @@ impl Parse for ItemPath {
     }
 }
 
+/// How many pointer and array levels a type may have. Every level is a level of recursion
+/// here, in layout and in the backend: a few kilobytes of `*mut *mut ..` would otherwise
+/// overflow the stack.
+const MAX_TYPE_NESTING: usize = 32;
+
 impl Parse for Type {
     fn parse(input: ParseStream) -> Result<Self> {
+        parse_type(input, 0)
+    }
+}
+
+fn parse_type(input: ParseStream, depth: usize) -> Result<Type> {
+    if depth > MAX_TYPE_NESTING {
+        return Err(input.error(format!(
+            "type is nested more than {MAX_TYPE_NESTING} levels deep"
+        )));
+    }
+    let lookahead = input.lookahead1();
+    if lookahead.peek(kw::unknown) {
+        input.parse::<kw::unknown>()?;
+        input.parse::<Token![<]>()?;
+        let size: usize = input.parse::<syn::LitInt>()?.base10_parse()?;
+        input.parse::<Token![>]>()?;
+
+        Ok(Type::Unknown(size))
+    } else if lookahead.peek(syn::Ident) {
+        Ok(Type::Ident(parse_type_ident(input)?.as_str().into()))
+    } else if lookahead.peek(Token![*]) {
+        input.parse::<Token![*]>()?;
+
         let lookahead = input.lookahead1();
-        if lookahead.peek(kw::unknown) {
-            input.parse::<kw::unknown>()?;
-            input.parse::<Token![<]>()?;
-            let size: usize = input.parse::<syn::LitInt>()?.base10_parse()?;
-            input.parse::<Token![>]>()?;
-
-            Ok(Type::Unknown(size))
-        } else if lookahead.peek(syn::Ident) {
-            Ok(Type::Ident(parse_type_ident(input)?.as_str().into()))
-        } else if lookahead.peek(Token![*]) {
-            input.parse::<Token![*]>()?;
-
-            let lookahead = input.lookahead1();
-            if lookahead.peek(Token![const]) {
-                input.parse::<Token![const]>()?;
-                Ok(Type::ConstPointer(Box::new(input.parse()?)))
-            } else if lookahead.peek(Token![mut]) {
-                input.parse::<Token![mut]>()?;
-                Ok(Type::MutPointer(Box::new(input.parse()?)))
-            } else {
-                Err(lookahead.error())
-            }
-        } else if lookahead.peek(syn::token::Bracket) {
-            let content;
-            bracketed!(content in input);
-
-            let type_: Type = content.parse()?;
-            content.parse::<Token![;]>()?;
-            let size: syn::LitInt = content.parse()?;
-            let size: usize = size.base10_parse()?;
-            Ok(Type::Array(Box::new(type_), size))
+        if lookahead.peek(Token![const]) {
+            input.parse::<Token![const]>()?;
+            Ok(Type::ConstPointer(Box::new(parse_type(input, depth + 1)?)))
+        } else if lookahead.peek(Token![mut]) {
+            input.parse::<Token![mut]>()?;
+            Ok(Type::MutPointer(Box::new(parse_type(input, depth + 1)?)))
         } else {
             Err(lookahead.error())
         }
+    } else if lookahead.peek(syn::token::Bracket) {
+        let content;
+        bracketed!(content in input);
+
+        let type_: Type = parse_type(&content, depth + 1)?;
+        content.parse::<Token![;]>()?;
+        let size: syn::LitInt = content.parse()?;
+        let size: usize = size.base10_parse()?;
+        Ok(Type::Array(Box::new(type_), size))
+    } else {
+        Err(lookahead.error())
     }
 }
 
